@@ -38,6 +38,12 @@ type Exec struct {
 	abandoned   bool
 }
 
+// BlockedForever is the panic value of Block when a thread outside any controlled execution has
+// waited for a shimmed lock through two million consecutive attempts.
+const BlockedForever = "sched: blocked forever on a lock that nobody holds any more (left locked by an earlier call)"
+
+var idleBlocks int64
+
 // active is the execution whose threads may call Point; nil outside executions.
 var active *Exec
 
@@ -45,6 +51,7 @@ var active *Exec
 func Point(loc string) {
 	e := active
 	if e == nil || e.abandoned {
+		atomic.StoreInt64(&idleBlocks, 0)
 		return
 	}
 	atomic.AddInt64(&e.progress, 1)
@@ -58,6 +65,13 @@ func Point(loc string) {
 func Block() {
 	e := active
 	if e == nil || e.abandoned {
+		// outside a controlled execution nobody else will ever release the lock the caller waits for
+		// (free-running helper goroutines aside): after a long streak of fruitless waiting this is a
+		// lock left behind by an earlier call, and the caller is told so instead of spinning forever
+		if atomic.AddInt64(&idleBlocks, 1) > 2000000 {
+			atomic.StoreInt64(&idleBlocks, 0)
+			panic(BlockedForever)
+		}
 		runtime.Gosched()
 		return
 	}
